@@ -37,6 +37,9 @@ CACHE_USERS = {'C01', 'C02', 'C05', 'C06', 'C07', 'C08', 'C15', 'C16'}
 
 def owners(o):
     """properties that own an obligation (INV conjuncts and loop invariants are shared)"""
+    if o.func.startswith('_abc:') or o.func.startswith('_archives:file_archive') or o.func.startswith('_archives:null_archive') \
+            or o.func.startswith('_archives:dict_archive'):
+        return {o.prop}
     if o.func.startswith('_archives:cache'):
         # the wrapper proofs call cache.load/dump/archived through the contract that the real methods
         # are proved to refine: that obligation belongs to every property proved over the contract
@@ -113,9 +116,41 @@ def _work_cache(prop, tier):
     return out
 
 
+def _work_arch(prop, tier):
+    """contracts/archive_classes.py: file_archive protocol glue, null_archive, dict_archive, _abc.archive"""
+    t0 = time.time()
+    out = {'case': 'archive-classes', 'recs': [], 'unsupported': None, 'error': None, 'paths': {}, 'sha': None,
+           'queries': 0, 'module_unsupported': []}
+    try:
+        from contracts import archive_classes as AC
+        from pyvc import driver
+        from pyvc.symex import Unsupported
+        case = AC.ArchCase()
+        if case.unsupported:
+            out['unsupported'] = case.unsupported
+            return out
+        out['sha'] = case.sha
+        try:
+            obs = [o for o in AC.obligations(case) if o.prop == prop]
+        except Unsupported as e:
+            out['unsupported'] = str(e)
+            return out
+        recs, nq = driver.discharge_grouped(obs)
+        out['queries'] = nq
+        for r in recs:
+            r.pop('_ob')
+            out['recs'].append(r)
+        out['wall_s'] = round(time.time() - t0, 2)
+    except Exception:
+        out['error'] = traceback.format_exc()
+    return out
+
+
 def _work(args):
     if args[0] == 'cache-class':
         return _work_cache(args[4], args[5])
+    if args[0] == 'arch-classes':
+        return _work_arch(args[4], args[5])
     modfile, modname, safe, clsname, prop, tier = args
     t0 = time.time()
     out = {'case': '%s:%s' % (modfile[:-3], clsname), 'recs': [], 'unsupported': None, 'error': None,
@@ -295,10 +330,12 @@ def run(prop, tier='quick', seed=0):
             jobs.append((modfile, modname, safe, cls, prop, tier))
     if prop in CACHE_USERS:
         jobs.append(('cache-class', None, None, 'cache', prop, tier))
+    if prop == 'C08':
+        jobs.append(('arch-classes', None, None, 'archives', prop, tier))
     # the LRU cases are the long ones: start them first
     jobs.sort(key=lambda j: 0 if j[3] == 'lru_cache' else 1)
     ctx = multiprocessing.get_context('fork')
-    with ctx.Pool(min(13, len(jobs))) as pool:
+    with ctx.Pool(min(14, len(jobs))) as pool:
         results = pool.map(_work, jobs, chunksize=1)
     return results
 
@@ -546,6 +583,27 @@ def level_a_summary(prop, tier='quick'):
             if r['res'] != 'unsat':
                 ok[0] = False
                 ok[1] = '%s on path %s (%s)' % (r['res'], r['path'], r['reason'])
+    return {'obligations': len(names), 'discharged': sum(1 for v in names.values() if v[0]),
+            'failed': [(n, v[1]) for n, v in names.items() if not v[0]], 'functions': sorted(funcs), 'ms': round(ms, 1),
+            'unsupported': unsupported}
+
+
+def arch_level_a(prop):
+    """Level-A obligations of contracts/archive_classes.py owned by `prop` (for the bounded C03 check)"""
+    res = _work_arch(prop, 'quick')
+    names, funcs, ms = {}, set(), 0.0
+    unsupported = []
+    if res['error']:
+        unsupported.append('archive classes: crashed: %s' % res['error'][-300:])
+    elif res['unsupported']:
+        unsupported.append('archive classes: %s' % res['unsupported'])
+    for r in res['recs']:
+        ok = names.setdefault(r['name'], [True, ''])
+        funcs.add(r['func'])
+        ms += r['ms']
+        if r['res'] != 'unsat':
+            ok[0] = False
+            ok[1] = '%s on path %s (%s)' % (r['res'], r['path'], r['reason'])
     return {'obligations': len(names), 'discharged': sum(1 for v in names.values() if v[0]),
             'failed': [(n, v[1]) for n, v in names.items() if not v[0]], 'functions': sorted(funcs), 'ms': round(ms, 1),
             'unsupported': unsupported}
